@@ -3,6 +3,7 @@ package mc
 import (
 	"context"
 	"fmt"
+	"math"
 	"sort"
 	"strings"
 	"time"
@@ -29,6 +30,7 @@ type simplePlug struct {
 type SReq struct {
 	Arg string
 	Bad bool
+	F   float64 // NaN cannot be encoded by the stores: the plan is well formed, yet storing it fails midway
 }
 
 type SResp struct{ Arg string }
@@ -261,6 +263,8 @@ var mutations = []mutation{
 	{name: "request-wrong-type", kind: "action", apply: func(o objRef) { o.obj.(*workflow.Action).Req = "a string" }},
 	{name: "request-nil", kind: "action", apply: func(o objRef) { o.obj.(*workflow.Action).Req = nil }},
 	{name: "register-preset", kind: "action", apply: func(o objRef) { o.obj.(*workflow.Action).SetRegister(registry.New()) }},
+	// the request is accepted by the plugin but cannot be stored: whatever Submit answers, a refusal must leave nothing
+	{name: "request-unstorable", kind: "action", valid: true, apply: func(o objRef) { o.obj.(*workflow.Action).Req = SReq{Arg: "x", F: math.NaN()} }},
 	{name: "plugin-kind-swapped", kind: "action", valid: true, startRefused: true, apply: func(o objRef) {
 		a := o.obj.(*workflow.Action)
 		if o.inChecks {
@@ -457,6 +461,43 @@ func rowCounts(ctx context.Context, v *sqlite.Vault) (map[string]int, error) {
 
 var vaultSeq int
 
+// hasUnstorableRequest walks a possibly malformed plan (nil elements) for a request that the stores cannot encode.
+func hasUnstorableRequest(p *workflow.Plan) bool {
+	found := false
+	acts := func(as []*workflow.Action) {
+		for _, a := range as {
+			if a != nil {
+				if r, ok := a.Req.(SReq); ok && r.F != r.F {
+					found = true
+				}
+			}
+		}
+	}
+	chk := func(cs ...*workflow.Checks) {
+		for _, c := range cs {
+			if c != nil {
+				acts(c.Actions)
+			}
+		}
+	}
+	if p == nil {
+		return false
+	}
+	chk(p.BypassChecks, p.PreChecks, p.ContChecks, p.PostChecks, p.DeferredChecks)
+	for _, b := range p.Blocks {
+		if b == nil {
+			continue
+		}
+		chk(b.BypassChecks, b.PreChecks, b.ContChecks, b.PostChecks, b.DeferredChecks)
+		for _, sq := range b.Sequences {
+			if sq != nil {
+				acts(sq.Actions)
+			}
+		}
+	}
+	return found
+}
+
 func checkSubmitCase(c submitCase) (rule, sig, msg string) {
 	defer func() {
 		if r := recover(); r != nil {
@@ -476,9 +517,15 @@ func checkSubmitCase(c submitCase) (rule, sig, msg string) {
 		return "harness", "workstream", err.Error()
 	}
 	p, valid, startRefused := c.build()
+	unstorable := hasUnstorableRequest(p)
 	before := time.Now()
 	id, serr := ws.Submit(ctx, p)
 	switch {
+	case unstorable:
+		// the statement does not say whether such a plan is admitted; it does say what a refusal leaves behind
+		if serr == nil {
+			return "", "", ""
+		}
 	case valid && serr != nil:
 		return "well-formed-plan-rejected", c.mutNames(), fmt.Sprintf("%s is well formed but Submit returned: %v", c.describe(), serr)
 	case !valid && serr == nil:
@@ -646,7 +693,7 @@ func init() {
 	register(&PropDef{
 		ID:    "C16",
 		Level: "exploration",
-		Rule: "three base shapes (minimal, medium, every check group at both levels) must be accepted; EVERY single mutation from a catalogue of 36 (blank/whitespace names and descriptions, missing or nil children, pre-set id/state/attempts/reason/submit time/register, key v7/v4/shared, timeouts 1 s / 5 s-1 ns / negative / 5 s, " +
+		Rule: "three base shapes (minimal, medium, every check group at both levels) must be accepted; EVERY single mutation from a catalogue of 37 (a request the plugin accepts but the store cannot encode - verdict free, a refusal must leave nothing -, blank/whitespace names and descriptions, missing or nil children, pre-set id/state/attempts/reason/submit time/register, key v7/v4/shared, timeouts 1 s / 5 s-1 ns / negative / 5 s, " +
 			"unknown or empty plugin, rejected/wrong-typed/nil request, swapped plugin kind, negative retries/concurrency) at EVERY object of the tree, and EVERY pair of them on the medium shape (all shapes in the thorough tier); each case runs Submit on a real Workstream over a fresh in-memory sqlite vault; " +
 			"oracle: independent validity flag of the mutations; on rejection all five tables are empty, on acceptance the stored plan has pairwise-distinct v7 ids, pristine NotStarted state, submit time, defaults, and Start refuses non-check plugins in check groups; distinct_nontrivial = cases with at least one mutation",
 		Assumptions: []string{"mutations are independent except where listed (shared key needs two objects; later timeout/plugin mutations override earlier ones and are re-evaluated on the final plan)"},
